@@ -1,10 +1,12 @@
 """property -> rules registry (claimed properties only)"""
-from . import rules_state
+from . import rules_state, rules_arith
 
 RULES = {
     "P1": rules_state.rule_P1,
     "P2": rules_state.rule_P2,
     "P2b": rules_state.rule_P2b,
+    "N1": rules_arith.rule_N1,
+    "N2": rules_arith.rule_N2,
 }
 
 PROPS = {
@@ -21,6 +23,35 @@ PROPS = {
                        "plan objects handed out as shared_ptr, on which only const operations exist and these must not write "
                        "object-reachable storage (P1: mutable members, const-removing casts, writes and non-const calls/arguments "
                        "rooted at pointer-like members, in every const method of every plan class).",
+    },
+    "C14": {
+        "id": "C14",
+        "title": "Analytic-signal and frequency-translation tools follow their definitions",
+        "rules": ["N1"],
+        "clause": "the tuner's admissible-frequency test (and every other division of the anchored files) is carried out in real "
+                  "arithmetic: every f with |f| <= fs/2 is accepted, also for odd sample rates",
+        "not_decided": "hilbert/HilbertFilter numerics and the phase accumulator arithmetic",
+        "explanation": "N1 enumerates every '/' expression in tuner.h, hilbert.cpp/.h with its operand types and decides from the "
+                       "types alone whether an integer-truncated quotient is converted to floating point.",
+    },
+    "C15": {
+        "id": "C15",
+        "title": "Prime and power-of-two helpers agree with number theory and terminate",
+        "rules": ["N2"],
+        "clause": "no trial-division bound is computed in a type that can wrap for a 32-bit argument (necessary for correctness and "
+                  "for termination within sqrt(n) steps above 65521^2)",
+        "not_decided": "agreement with number theory below the wrap threshold (value-level), nextpow2/ispow2",
+        "explanation": "N2 enumerates every relational comparison in every function of the prime machinery reachable from "
+                       "isprime/factor/nextprime/primes and compares the width of each non-constant product with its operands' widths.",
+    },
+    "C20": {
+        "id": "C20",
+        "title": "Dynamics processors never amplify, follow their static curves, and settle",
+        "rules": ["N1"],
+        "clause": "the static gain computers and their range checks contain no integer-truncated division (slope 1/ratio is real)",
+        "not_decided": "gain range [0,1], monotone smoothing, settling, the numerical shape of the knee",
+        "explanation": "N1 enumerates every '/' expression of compressor.h, limiter.h, noise-gate.h, agc.cpp/.h and ma-filter.h with "
+                       "operand types.",
     },
     "C19": {
         "id": "C19",
